@@ -73,6 +73,9 @@ type Codec struct {
 	Seeds           []Seed
 	// Headers are the valid frame prefixes after which all short byte strings are tried.
 	Headers [][]byte
+	// LightHeaders are further valid prefixes (legacy versions) that always get the quick-tier
+	// short-string menu (all strings <=1, 2-byte strings over the boundary menu).
+	LightHeaders [][]byte
 }
 
 // Bounds are the tier-dependent enumeration bounds.
@@ -130,6 +133,7 @@ type Runner struct {
 	batch  []job
 	stats  map[string]int64
 	maxAll uint64
+	maxOne int64
 	unstab int64
 	msA    runtime.MemStats
 	msB    runtime.MemStats
@@ -264,11 +268,22 @@ func (k *Runner) Run(codecs []*Codec) {
 	k.enums[kTrunc].Done(true, map[string]any{"prefixes": "every n in [0,len)"}, "every strict prefix of every seed encoding")
 	k.enums[kMut].Done(true, map[string]any{"replacements": repl}, "every position of every seed encoding x replacement bytes")
 	k.enums[kBlow].Done(true, map[string]any{"patterns": len(blowPatterns())}, "every position of every seed encoding x huge-length patterns (uvarint splice, 32/64-bit overwrite)")
-	k.enums[kShort].Done(true, map[string]any{"max_len_all_bytes": k.B.ShortLen, "two_byte_menu": len(k.B.ShortMenu2)}, "all short byte strings alone and after every valid header")
+	k.enums[kShort].Done(true, map[string]any{"max_len_all_bytes": k.B.ShortLen, "two_byte_menu_for_light_headers_and_quick": len(menu2Bounds())}, "all short byte strings alone and after every valid header")
 	for name, n := range k.stats {
 		r.Count(name, n)
 	}
-	r.Count("max_single_batch_alloc_bytes", int64(k.maxAll))
+	tag := "?"
+	if len(codecs) > 0 {
+		tag = codecs[0].Name
+		for i := 0; i < len(tag); i++ {
+			if tag[i] == '.' {
+				tag = tag[:i]
+				break
+			}
+		}
+	}
+	r.Count("max_single_batch_alloc_bytes["+tag+"]", int64(k.maxAll))
+	r.Count("max_single_decode_alloc_bytes_in_remeasured_batches["+tag+"]", k.maxOne)
 	r.Count("accepted_inputs_whose_value_does_not_roundtrip", k.unstab)
 	tr, mu, bl := k.enums[kTrunc], k.enums[kMut], k.enums[kBlow]
 	r.Guard("roundtrip-values", k.rt.Evals() >= int64(len(codecs)) && k.rt.Outcome("equal") >= 1, "roundtrip cases=%d equal=%d codecs=%d", k.rt.Evals(), k.rt.Outcome("equal"), len(codecs))
@@ -372,6 +387,8 @@ func (k *Runner) stability(c *Codec, v any) string {
 	return ""
 }
 
+func menu2Bounds() []byte { return QuickBounds().ShortMenu2 }
+
 func replacements(b byte, all bool) []byte {
 	if all {
 		out := make([]byte, 0, 255)
@@ -468,7 +485,13 @@ func (k *Runner) expand(c *Codec, seeds []seedRec) {
 		}
 	}
 	heads := append([][]byte{nil}, c.Headers...)
-	for _, h := range heads {
+	nFull := len(heads)
+	heads = append(heads, c.LightHeaders...)
+	menu2 := k.B.ShortMenu2
+	if len(menu2) == 0 {
+		menu2 = QuickBounds().ShortMenu2
+	}
+	for hi, h := range heads {
 		emit := func(tail ...byte) {
 			in := append(append([]byte(nil), h...), tail...)
 			k.add(job{c: c, k: kShort, in: in, seed: -1, n: len(h)}, seeds)
@@ -477,15 +500,15 @@ func (k *Runner) expand(c *Codec, seeds []seedRec) {
 		for a := 0; a < 256; a++ {
 			emit(byte(a))
 		}
-		if k.B.ShortLen >= 2 {
+		if k.B.ShortLen >= 2 && hi < nFull {
 			for a := 0; a < 256; a++ {
 				for b := 0; b < 256; b++ {
 					emit(byte(a), byte(b))
 				}
 			}
 		} else {
-			for _, a := range k.B.ShortMenu2 {
-				for _, b := range k.B.ShortMenu2 {
+			for _, a := range menu2 {
+				for _, b := range menu2 {
 					emit(a, b)
 				}
 			}
@@ -525,6 +548,9 @@ func (k *Runner) flushWith(seeds []seedRec) {
 		for i := range b {
 			j := &b[i]
 			j.alloc = k.measure(func() { j.v, j.err, j.pan = safeDecode(j.c, j.in) })
+			if int64(j.alloc) > k.maxOne {
+				k.maxOne = int64(j.alloc)
+			}
 			if j.alloc > Ceiling(len(j.in)) {
 				k.violate(j.c, "alloc-over-ceiling", kindName[j.k], j.in, k.seedBytes(seeds, j), j.n, j.note,
 					"decoding %d bytes (%s at %d %s) allocated %d bytes, ceiling %d; result err=%v", len(j.in), kindName[j.k], j.n, j.note, j.alloc, Ceiling(len(j.in)), j.err)
